@@ -90,7 +90,7 @@ SLICES = {
 }
 MODEL = {
     "quick": V(names=("p", "q"), reps=("none", "n1", "n2", "n3", "vg", "vs", "vc"), comps=2, paths=("", "out.txt")),
-    "thorough": V(reps=("none", "vs", "vc"), spell=("abs",)),
+    "thorough": V(reps=("none", "vs"), spell=("abs",)),
 }
 
 
